@@ -98,6 +98,44 @@ func (h *StreamSrv) SubNaN(ctx context.Context, id int) (<-chan float64, error) 
 	return out, nil
 }
 
+// Rich is a stream element with optional fields, a map and a slice: decoding one value must not
+// be influenced by the values before it, and a delivered value must never change afterwards.
+type Rich struct {
+	Seq  int               `json:"seq"`
+	Note string            `json:"note,omitempty"`
+	Tags map[string]string `json:"tags,omitempty"`
+	Path []int             `json:"path,omitempty"`
+	Opt  *int              `json:"opt,omitempty"`
+}
+
+func richValues() []Rich {
+	seven := 7
+	return []Rich{
+		{Seq: 1, Note: "first", Tags: map[string]string{"a": "x", "b": "y"}, Path: []int{9, 2, 3}, Opt: &seven},
+		{Seq: 2},
+		{Seq: 3, Tags: map[string]string{"c": "z"}},
+		{Seq: 4, Path: []int{7}},
+	}
+}
+
+func (h *StreamSrv) SubRich(ctx context.Context, id int) (<-chan Rich, error) {
+	out := make(chan Rich)
+	h.s.Go(fmt.Sprintf("prodrich-%d", id), func() {
+		defer close(out)
+		if h.syncK > 0 {
+			h.s.Env("prod-go")
+		}
+		for _, v := range richValues() {
+			select {
+			case out <- v:
+			case <-ctx.Done():
+				return
+			}
+		}
+	})
+	return out, nil
+}
+
 func (h *StreamSrv) Sent(id int) []int {
 	h.mu.Lock()
 	defer h.mu.Unlock()
@@ -111,9 +149,10 @@ func (h *StreamSrv) Done(id int) bool {
 }
 
 type StreamCli struct {
-	SubNaN func(ctx context.Context, id int) (<-chan float64, error)
-	Sub    func(ctx context.Context, id int, n int) (<-chan int, error)
-	Echo   func(ctx context.Context, tok int) (int, error)
+	SubNaN  func(ctx context.Context, id int) (<-chan float64, error)
+	SubRich func(ctx context.Context, id int) (<-chan Rich, error)
+	Sub     func(ctx context.Context, id int, n int) (<-chan int, error)
+	Echo    func(ctx context.Context, tok int) (int, error)
 }
 
 // consumer state of one subscription on the client side
@@ -169,6 +208,11 @@ func init() {
 				add("k2-l3,3-sync", 1, map[string]int{"k": 2, "l0": 3, "l1": 3, "mode": 0, "sync": 1})
 				add("k2-l1,3-attentive-desc", 1, map[string]int{"k": 2, "l0": 1, "l1": 3, "mode": 0, "desc": 1})
 				add("k2-l3,3-nan", 1, map[string]int{"k": 2, "l0": 3, "l1": 3, "mode": 0, "nan": 1})
+				// element type with optional fields / map / slice / pointer
+				add("k1-l3-rich", 1, map[string]int{"k": 1, "l0": 3, "mode": 0, "rich": 1})
+				// subscriptions made with a context that can never be cancelled (context.Background)
+				add("k2-l3,3-bgctx", 1, map[string]int{"k": 2, "l0": 3, "l1": 3, "mode": 0, "bg": 1})
+				add("k1-l40-bgctx", 0, map[string]int{"k": 1, "l0": 40, "mode": 0, "bg": 1})
 				return ps
 			}
 			add("k2-l1,3-attentive", 2, map[string]int{"k": 2, "l0": 1, "l1": 3, "mode": 0})
@@ -194,6 +238,11 @@ func init() {
 			add("k2-l1,3-attentive-desc", 2, map[string]int{"k": 2, "l0": 1, "l1": 3, "mode": 0, "desc": 1})
 			add("k1-l3-attentive-desc", 3, map[string]int{"k": 1, "l0": 3, "mode": 0, "desc": 1})
 			add("k2-l3,3-nan", 2, map[string]int{"k": 2, "l0": 3, "l1": 3, "mode": 0, "nan": 1})
+			add("k1-l3-rich", 2, map[string]int{"k": 1, "l0": 3, "mode": 0, "rich": 1})
+			add("k1-l3-rich-late", 1, map[string]int{"k": 1, "l0": 3, "mode": 1, "rich": 1})
+			add("k2-l3,3-bgctx", 2, map[string]int{"k": 2, "l0": 3, "l1": 3, "mode": 0, "bg": 1})
+			add("k1-l40-bgctx", 1, map[string]int{"k": 1, "l0": 40, "mode": 0, "bg": 1})
+			add("k1-l3-bgctx-late", 2, map[string]int{"k": 1, "l0": 3, "mode": 1, "bg": 1})
 			return ps
 		},
 		Body: streamBody,
@@ -273,6 +322,11 @@ func streamBody(s *vsched.Sched, p Param) {
 	if p.I("sync") == 1 {
 		sw.srv.syncK = k
 	}
+	if p.I("bg") == 1 {
+		for i := range sw.ctxs {
+			sw.ctxs[i] = context.Background()
+		}
+	}
 	allReturned := func() bool {
 		for _, st := range sw.subs {
 			if _, _, ret, _, _ := st.snapshot(); !ret {
@@ -282,6 +336,8 @@ func streamBody(s *vsched.Sched, p Param) {
 		return true
 	}
 	obs := NewObs()
+	var richMu sync.Mutex
+	var richGot []Rich
 	s.Teardown = func() {
 		for _, c := range sw.cancel {
 			c()
@@ -294,6 +350,9 @@ func streamBody(s *vsched.Sched, p Param) {
 			return sw.srv.Entered() >= k
 		case "prod-go": // all subscriptions are established before any value flows
 			return allReturned()
+		}
+		if name == "consume-rich" {
+			return true
 		}
 		if strings.HasPrefix(name, "consume-") {
 			var i int
@@ -335,11 +394,41 @@ func streamBody(s *vsched.Sched, p Param) {
 		} else if v != "5/<nil>" {
 			s.Violate("C07: unary call returned %s", v)
 		}
+		if p.I("rich") == 1 {
+			richMu.Lock()
+			gotJ, _ := json.Marshal(richGot)
+			richMu.Unlock()
+			wantJ, _ := json.Marshal(richValues())
+			if v, _ := obs.Get("rich"); v != "closed" {
+				s.Violate("C07: struct-valued subscription did not complete: %q; alive: %s", v, strings.Join(s.Alive(), " "))
+			} else if string(gotJ) != string(wantJ) {
+				s.Violate("C07: struct-valued subscription: caller holds %s, handler sent %s (each value must arrive exactly as sent and stay that way)", gotJ, wantJ)
+			}
+		}
 		checkStreamWire(s, sw.w, "C07")
 		obs.Set("wire", "%s", wireOrder(sw.w))
 		s.SetObs(obs.String())
 	}
 	s.Begin()
+	if p.I("rich") == 1 {
+		s.Go("sub-rich", func() {
+			ch, err := sw.cli.SubRich(sw.ctxs[0], 8)
+			if err != nil || ch == nil {
+				obs.Set("rich", "err:%v", err)
+				return
+			}
+			obs.Set("rich", "open")
+			if mode == 1 {
+				s.Env("consume-rich")
+			}
+			for v := range ch {
+				richMu.Lock()
+				richGot = append(richGot, v) // maps, slices and pointers are kept as delivered
+				richMu.Unlock()
+			}
+			obs.Set("rich", "closed")
+		})
+	}
 	for i := 0; i < k; i++ {
 		i := i
 		s.Go(fmt.Sprintf("sub-%d", i), func() {
